@@ -7,6 +7,7 @@
 #include "common/alph.hpp"
 #include "argon2.h"
 #include "argon2_core.h"
+#include <map>
 
 using namespace rxh;
 
@@ -62,6 +63,36 @@ static std::string api_case(const std::string& k1, const std::string& k2, int pr
 	return "";
 }
 
+// Forced reference index: the pseudo-random J1 (low 32 bits of the previous block) decides which block is referenced, through
+// rel = area - 1 - ((area * (J1^2 >> 32)) >> 32). Through keys J1 is uniform and the rounding edges of that mapping (products that are exact
+// multiples of 2^32) occur about once in 2^29 blocks (seeded change agent7_C10: an inlined index computation in ONE implementation wrong
+// exactly there). The first block of a segment takes J1 from a block the segment does not rewrite, so J1 can be planted: for instance sizes
+// whose reference area at that block is divisible by a large power of two, every planted J1 of a boundary set, every pass and slice - the
+// three fill implementations must produce the same segment from the same memory.
+static std::string forced_case(uint32_t m, uint32_t pass, uint32_t slice, uint32_t j1, vf::Result& R) {
+	static std::map<uint32_t, std::vector<uint8_t>> base;
+	if (!base.count(m)) { std::vector<uint8_t> b((size_t)m * 1024 + 64); uint8_t* q = b.data() + (64 - ((uintptr_t)b.data() & 63)) % 64; fill_with_library("forced reference index", m, 3, 0, q); base[m] = std::vector<uint8_t>(q, q + (size_t)m * 1024); }
+	const uint32_t seg = m / 4, start = slice * seg + (pass == 0 && slice == 0 ? 2 : 0), prev = (start == 0) ? m - 1 : start - 1;
+	std::vector<std::vector<uint8_t>> out(3);
+	for (int impl = 0; impl < 3; ++impl) {
+		std::vector<uint8_t> mem((size_t)m * 1024 + 64); uint8_t* q = mem.data() + (64 - ((uintptr_t)mem.data() & 63)) % 64; memcpy(q, base[m].data(), (size_t)m * 1024);
+		memcpy(q + (size_t)prev * 1024, &j1, 4);
+		argon2_instance_t instance; memset(&instance, 0, sizeof instance);
+		instance.version = ARGON2_VERSION_NUMBER; instance.passes = 3; instance.memory_blocks = m; instance.segment_length = seg; instance.lane_length = seg * ARGON2_SYNC_POINTS; instance.lanes = 1; instance.threads = 1; instance.type = Argon2_d;
+		instance.memory = (block*)q; instance.impl = impl_of(impl);
+		argon2_position_t pos; pos.pass = pass; pos.lane = 0; pos.slice = (uint8_t)slice; pos.index = 0;
+		(*impl_of(impl))(&instance, pos);
+		out[impl].assign(q, q + (size_t)m * 1024); R.n["forced_segments"]++;
+	}
+	for (int impl = 1; impl < 3; ++impl) if (out[impl] != out[0]) { size_t i = 0; while (out[impl][i] == out[0][i]) ++i; char t[200]; snprintf(t, sizeof t, "segment fill (%s) differs from the reference implementation at block %zu for m=%u, pass %u, slice %u, planted J1=0x%08x", impl_name(impl), i / 1024, m, pass, slice, j1); return t; }
+	return "";
+}
+static std::vector<uint32_t> j1_set() {
+	std::vector<uint32_t> v = { 0, 1, 2, 3, 0x7FFFFFFFu, 0x80000000u, 0x80000001u, 0xFFFFFFFEu, 0xFFFFFFFFu, 0x0000FFFFu, 0x00010000u, 0xB504F333u, 0xB504F334u };   // 0xB504F334^2 >> 32 crosses 2^31
+	for (int sh = 8; sh < 32; ++sh) { uint32_t b = 1u << sh; v.push_back(b); v.push_back(b - 1); v.push_back(b + 1); v.push_back(b | (b >> 1)); v.push_back(0u - b); }
+	return v;
+}
+
 #ifndef RX_PROFILE
 #define RX_PROFILE "full"
 #endif
@@ -74,7 +105,8 @@ int main(int argc, char** argv) {
 	if (!args.replay.empty()) {
 		vf::Json r = vf::Json::load(args.replay); std::string d;
 		auto k = vf::unhex(r.at("key").s); std::string key((const char*)k.data(), k.size());
-		if (r.at("kind").s == "reduced") d = reduced_case(key, (uint32_t)r.at("m").num(), (uint32_t)r.at("t").num(), (int)r.at("prefill").num());
+		if (r.at("kind").s == "forced") { vf::Result R; d = forced_case((uint32_t)r.at("m").num(), (uint32_t)r.at("pass").num(), (uint32_t)r.at("slice").num(), (uint32_t)r.at("j1").num(), R); }
+		else if (r.at("kind").s == "reduced") d = reduced_case(key, (uint32_t)r.at("m").num(), (uint32_t)r.at("t").num(), (int)r.at("prefill").num());
 		else { auto k0 = vf::unhex(r.at("key1").s); d = api_case(std::string((const char*)k0.data(), k0.size()), key, (int)r.at("prefill").num(), P); }
 		printf("replay: %s\n", d.empty() ? "equals Argon2d" : d.c_str()); return d.empty() ? 0 : 1;
 	}
@@ -111,10 +143,25 @@ int main(int argc, char** argv) {
 		}
 		return R;
 	}, true, 3600);
+	if (small) {
+		// m = 4s with 3s-1 (area of the first block of a segment in passes > 0) or s-1 / 2s-1 (pass 0) divisible by a large power of two, plus ordinary sizes
+		std::vector<uint32_t> ms = { 44, 172, 684, 2732, 68, 260, 1028, 64, 1024 }; auto J = j1_set();
+		vf::Result rf = vf::run_shards(args, (int)ms.size(), [&](int shard) {
+			vf::Result R; uint32_t m = ms[(size_t)shard];
+			for (uint32_t pass = 0; pass < 3; ++pass) for (uint32_t slice = 0; slice < 4; ++slice) for (uint32_t j1 : J) {
+				vf::Json rp = vf::Json::obj().set("kind", "forced").set("m", (int)m).set("pass", (int)pass).set("slice", (int)slice).set("j1", (unsigned long long)j1).set("key", "").set("key1", "").set("t", 3).set("prefill", 0);
+				vf::set_current(rp.dump());
+				std::string d = forced_case(m, pass, slice, j1, R);
+				if (!d.empty() && R.viol.size() < 3) { vf::Violation v; v.key = "c10:forced"; v.what = d; v.replay = rp; R.viol.push_back(v); }
+			}
+			return R;
+		}, true, 3600);
+		total.merge(rf);
+	}
 	vf::Evidence ev; ev.level = "exploration";
-	ev.coverage.set("evaluations", (unsigned long long)(total.n["reduced_instances"] * 3 + total.n["api_caches"])).set("distinct_nontrivial", (unsigned long long)(total.n["reduced_instances"] + total.n["api_caches"] / 3))
+	ev.coverage.set("evaluations", (unsigned long long)(total.n["reduced_instances"] * 3 + total.n["api_caches"] + total.n["forced_segments"])).set("distinct_nontrivial", (unsigned long long)(total.n["reduced_instances"] + total.n["api_caches"] / 3))
 		.set("exhaustive", !total.incomplete)
-		.set("rule", std::string("profile ") + RX_PROFILE + ": reduced instances (memory blocks m in {8,12,..,64,128,1024} x passes 1..4 x key lengths 0..300, lanes 1) through randomx_argon2_initialize / fill_memory_blocks with each of the three fill implementations: every byte == RFC 9106 Argon2d model; public API at the profile's cache size: all bytes for each key x 3 implementations, and re-initialisation over every ordered key pair with 0x00/0xFF prefilled buffers");
+		.set("rule", std::string("profile ") + RX_PROFILE + ": reduced instances (memory blocks m in {8,12,..,64,128,1024} x passes 1..4 x key lengths 0..300, lanes 1) through randomx_argon2_initialize / fill_memory_blocks with each of the three fill implementations: every byte == RFC 9106 Argon2d model; public API at the profile's cache size: all bytes for each key x 3 implementations, and re-initialisation over every ordered key pair with 0x00/0xFF prefilled buffers; planted reference index: for 9 instance sizes (reference areas divisible by 2^5..2^11 among them) x 3 passes x 4 slices x a 133-value J1 set planted in the block the first block of the segment reads: the three implementations produce identical segments");
 	ev.assumptions = { "specmodel Argon2d validated against the RFC 9106 section 5.1 vector at setup; lanes > 1 is outside RandomX's configuration and not driven through the library" };
 	return vf::finish(args, total, ev, true, true);
 }
